@@ -22,6 +22,13 @@ try:
                 bad += 1
                 print("MISMATCH", profile, json.dumps(sc), exp, obs)
         print(profile, n, "scenarios")
+    from uv import replay_more
+    for name, bats in replay_more.BATTERIES.items():
+        ok, detail, ran = replay_more.run_batteries(root, bats)
+        print(name, "battery:", ran, "runs; mismatches:", ok)
+        if ok:
+            bad += 1
+            print(detail)
 finally:
     scratch.cleanup(root)
 print("bad", bad)
